@@ -90,7 +90,7 @@ Section Reg.
         match entry_body r id with
         | None => SCut
         | Some t =>
-            let fld (f : field) : fshape := (f_name f, is_boxed f, shape_reg n' (f_ty f)) in
+            let fld (f : field) : fshape := (f_name f, is_boxed_gen f, shape_reg n' (f_ty f)) in
             match t_def t with
             | TDComposite fs =>
                 named_shape (t_path t) (map (shape_reg n') (param_ids t)) (SStruct (map fld fs))
@@ -109,7 +109,7 @@ Section Reg.
 
   (** the registry's reading of one field *)
   Definition field_shape_reg (n : nat) (f : field) : fshape :=
-    (f_name f, is_boxed f, shape_reg n (f_ty f)).
+    (f_name f, is_boxed_gen f, shape_reg n (f_ty f)).
 End Reg.
 
 (** ** the Rust side *)
